@@ -166,7 +166,14 @@ func VerifC28_frames() {
 		if ok {
 			vfAssert(f[0] == frameTypeStreamsBlockedBidi || f[0] == frameTypeStreamsBlockedUni, "STREAMS_BLOCKED type")
 			st2, max2, n2 := consumeStreamsBlockedFrame(f)
-			vfAssert(n2 == n && st2 == st && max2 == max, "STREAMS_BLOCKED round trip")
+			if max > maxStreamsLimit {
+				// RFC 9000 §19.14: a Maximum Streams value above 2^60 is an error (enforced since /repo commit f07ae60);
+				// the writer is only ever called with a stream limit, which never exceeds 2^60
+				vfAssert(n2 == -1, "STREAMS_BLOCKED above 2^60 rejected by the parser")
+				vfReach("streams-blocked-over-limit")
+			} else {
+				vfAssert(n2 == n && st2 == st && max2 == max, "STREAMS_BLOCKED round trip")
+			}
 		}
 	case 9:
 		seq := c28i62("seq")
